@@ -97,3 +97,7 @@ Definition hs_search (bx by_ bz : float) (ngx ngy ngz : Z) (seed : Z) (t eps mcv
   let pend := pending_direct bx by_ bz ngx ngy ngz seed ps in
   let '(_, psf, log) := resolve_loop (fun p : fp => phash p) flagF (res_hs bx by_ bz t eps mcv) false false (fun e => e) orcs ps pend in
   (log, map (fun p : fp => phash p) psf, flat_map fl_p psf).
+
+(* ---- (e) max_radius bookkeeping after adding particles with the given radii to a fresh simulation *)
+Definition radii_fold (rs : list float) : list float :=
+  let '(m0, m1) := fold_left (add_radius_num FNum) rs (PrimFloat.zero, PrimFloat.zero) in [m0; m1].
